@@ -366,63 +366,72 @@ theorem C19.frommatrix_consistent_2d {K : Type} [CommRing K] (c' s' c s : K) (b 
 /-! ## `__getitem__`
 
 Slicing by angle index keeps all constants of the geometry and replaces the angle
-partition (C14) — IF the constructor call made by `__getitem__` reproduces the state.  For
+partition (C14): the slice evaluated at its k-th angle gives the vectors of the original at
+that angle, provided the constructor call made by `__getitem__` reproduces the state.  For
 the divergent classes the constants are passed through unchanged (checked on the real code
-by the slicing stream).  For the parallel classes the absolute `det_pos_init` is re-derived,
-and this is where the code is wrong for non-zero translations (findings F19a/F19b):
+by the slicing stream).  For the parallel classes the absolute `det_pos_init` is re-derived
+from what `__getitem__` passes to the constructor; that is the part modelled here. -/
 
-  full statement (FALSE for the code as it is):
-    ∀ p t, (par2Getitem (par2Ctor p t)).2.pos = (par2Ctor p t).pos
-         ∧ (par2Getitem (par2Ctor p t)).1 = par2Ctor p t
--/
+/-- `Parallel2dGeometry.__getitem__`, for every state (so also for slices of slices), every
+position and every translation: the slice has the receiver's `det_pos_init` and
+`translation` — hence the same reference points `t + R·(pos - t)` at every angle — and the
+receiver is unchanged. -/
+theorem C19.getitem_angles_par2d {K : Type} [CommRing K] (g : PosState (V2 K)) :
+    (par2Getitem g).2.pos = g.pos ∧ (par2Getitem g).2.t = g.t ∧ (par2Getitem g).1 = g ∧
+    (∀ det R, (Par2.mk (par2Getitem g).2.pos (par2Getitem g).2.t det).refpoint R =
+      (Par2.mk g.pos g.t det).refpoint R) := by
+  have h : (par2Getitem g).2.pos = g.pos := by
+    ext <;> simp only [par2Getitem, par2Ctor, V2.add, V2.sub] <;> ring
+  refine ⟨h, rfl, rfl, ?_⟩
+  intro det R
+  rw [h]; rfl
 
-/-- `Parallel2dGeometry.__getitem__`: the slice has the right `det_pos_init` (hence the
-right reference points, which are `t + R·(pos - t)`) and the receiver is unchanged IF AND
-ONLY IF the translation is zero. -/
-theorem C19.getitem_angles_par2d_partial {K : Type} [CommRing K] (p t : V2 K) :
-    ((par2Getitem (par2Ctor p t)).2.pos = (par2Ctor p t).pos ↔ t = V2.zero) ∧
-    ((par2Getitem (par2Ctor p t)).1.pos = (par2Ctor p t).pos ↔ t = V2.zero) ∧
-    (par2Getitem (par2Ctor p t)).2.t = t := by
+example : (par2Getitem (par2Ctor (⟨3 / 5, 4 / 5⟩ : V2 ℚ) ⟨2, 3⟩)).2.pos = ⟨13 / 5, 19 / 5⟩ := by
+  simp only [par2Getitem, par2Ctor, V2.add, V2.sub]; norm_num
+
+/-- Sensitivity (the code before repair eee844a, finding F19a): with the OLD `__getitem__`
+the slice and the receiver keep `det_pos_init` if and only if the translation is zero; e.g.
+default position `(0, 1)`, translation `(1, 0)`: the slice's reference point at angle 0 was
+`(2, 1)` instead of `(1, 1)`. -/
+theorem C19.getitem_angles_par2d_old_fails {K : Type} [CommRing K] (p t : V2 K) :
+    ((par2GetitemOld (par2CtorOld p t)).2.pos = (par2CtorOld p t).pos ↔ t = V2.zero) ∧
+    ((par2GetitemOld (par2CtorOld p t)).1.pos = (par2CtorOld p t).pos ↔ t = V2.zero) := by
   obtain ⟨px, py⟩ := p
   obtain ⟨tx, ty⟩ := t
-  simp only [par2Getitem, par2Ctor, V2.add, V2.zero, V2.mk.injEq]
+  simp only [par2GetitemOld, par2CtorOld, V2.add, V2.zero, V2.mk.injEq]
   refine ⟨⟨fun h => ⟨by linear_combination h.1, by linear_combination h.2⟩,
     fun h => ⟨by rw [h.1]; ring, by rw [h.2]; ring⟩⟩,
     ⟨fun h => ⟨by linear_combination h.1, by linear_combination h.2⟩,
-    fun h => ⟨by rw [h.1]; ring, by rw [h.2]; ring⟩⟩, trivial⟩
+    fun h => ⟨by rw [h.1]; ring, by rw [h.2]; ring⟩⟩⟩
 
-/-- Counterexample on the model (finding F19a): default `det_pos_init = (0, 1)`,
-`translation = (1, 0)`: the slice's reference point at angle 0 is `(2, 1)`, the original's
-was `(1, 1)`, and the original's has become `(2, 1)` as well. -/
-theorem C19.getitem_angles_par2d_fails :
-    let g := par2Ctor (⟨0, 1⟩ : V2 ℚ) ⟨1, 0⟩
-    let det : Det2 ℚ := .flat ⟨1, 0⟩
-    (Par2.mk g.pos g.t det).refpoint (euler2 1 0) = ⟨1, 1⟩ ∧
-    (Par2.mk (par2Getitem g).2.pos (par2Getitem g).2.t det).refpoint (euler2 1 0) = ⟨2, 1⟩ ∧
-    (Par2.mk (par2Getitem g).1.pos (par2Getitem g).1.t det).refpoint (euler2 1 0) = ⟨2, 1⟩ := by
-  simp only [par2Getitem, par2Ctor, Par2.refpoint, euler2, V2.add, V2.sub, M2.mulVec]
-  norm_num
+/-- `Parallel3dAxisGeometry.__getitem__`: for every way the geometry was constructed
+(`det_pos_init` given or derived, any translation, also via `frommatrix`), the slice is in
+the same state as the receiver and the receiver is unchanged; so any number of successive
+slicings reproduce the state. -/
+theorem C19.getitem_angles_par3d {K : Type} [CommRing K] (dflt t : V3 K)
+    (arg : Option (V3 K)) (M : M3 K) :
+    let g := par3Ctor dflt arg t
+    ((par3Getitem dflt g).2 = g ∧ (par3Getitem dflt g).1 = g) ∧
+    ((par3Getitem V3.zero (par3FromMatrix M t)).2 = par3FromMatrix M t) := by
+  cases arg <;> exact ⟨⟨rfl, rfl⟩, rfl⟩
 
-/-- `Parallel3dAxisGeometry.__getitem__`: with `det_pos_init` not given, every slice is
-right.  With `det_pos_init = p` given, the FIRST slice is right iff the argument was not a
-float ndarray (no aliasing) or the translation is zero; and even without aliasing a SECOND
-slice of the same geometry is right iff the translation is zero. -/
-theorem C19.getitem_angles_par3d_partial {K : Type} [CommRing K] (dflt p t : V3 K)
+/-- Sensitivity (the code before repair 3a647dc, finding F19b): with the in-place `+=` the
+first slice was right iff the argument was not aliased or the translation zero, and even
+without aliasing a second slice of the same geometry was right iff the translation is zero. -/
+theorem C19.getitem_angles_par3d_old_fails {K : Type} [CommRing K] (dflt p t : V3 K)
     (aliased : Bool) :
-    let g0 := par3Ctor dflt none false t
-    let g := par3Ctor dflt (some p) aliased t
-    ((par3Getitem dflt g0).2.pos = g0.pos ∧ (par3Getitem dflt g0).1 = g0) ∧
-    ((par3Getitem dflt g).2.pos = g.pos ↔ (aliased = false ∨ t = V3.zero)) ∧
-    ((par3Getitem dflt (par3Getitem dflt (par3Ctor dflt (some p) false t)).1).2.pos =
-      (par3Ctor dflt (some p) false t).pos ↔ t = V3.zero) := by
+    let g := par3CtorOld dflt (some p) aliased t
+    ((par3GetitemOld dflt g).2.pos = g.pos ↔ (aliased = false ∨ t = V3.zero)) ∧
+    ((par3GetitemOld dflt (par3GetitemOld dflt (par3CtorOld dflt (some p) false t)).1).2.pos =
+      (par3CtorOld dflt (some p) false t).pos ↔ t = V3.zero) := by
   obtain ⟨px, py, pz⟩ := p
   obtain ⟨tx, ty, tz⟩ := t
   have key : ∀ a b : K, a + b + b = a + b ↔ b = 0 := fun a b =>
     ⟨fun h => by linear_combination h, fun h => by rw [h]; ring⟩
-  refine ⟨⟨rfl, rfl⟩, ?_, ?_⟩
+  refine ⟨?_, ?_⟩
   · cases aliased <;>
-      simp [par3Getitem, par3Ctor, V3.add, V3.zero, key]
-  · simp [par3Getitem, par3Ctor, V3.add, V3.zero, key]
+      simp [par3GetitemOld, par3CtorOld, V3.add, V3.zero, key]
+  · simp [par3GetitemOld, par3CtorOld, V3.add, V3.zero, key]
 
 /-! ## factories -/
 
@@ -527,36 +536,61 @@ example : coneHalfHeightRaw (3 : ℚ) 5 10 10 < 3 * (10 + 10) / 4 :=
 
 /-! ## shapes of vectorised evaluation -/
 
-/-- Single parameters (all components scalar) give a single vector of shape `(ndim,)` for
-every class (1, 2 or 3 motion parameters; 1 or 2 detector parameters; flat or curved). -/
-theorem C19.vectorised_shape_scalars (ndim : Nat) (curved : Bool) :
-    evalShape [[]] [[]] ndim curved = some [ndim] ∧
-    evalShape [[]] [[], []] ndim curved = some [ndim] ∧
-    evalShape [[], []] [[], []] ndim false = some [ndim] ∧
-    evalShape [[], [], []] [[], []] ndim false = some [ndim] := by
-  cases curved <;> simp [evalShape, surfShape, bcastAll, bcast, bcastRev, bcastDim, atLeast1]
+/-- Vectorised and broadcast evaluation has the documented output shape
+`broadcast(bcast_mparam, bcast_dparam).shape + (ndim,)` for ALL shapes of the parameter
+components (any number of components, any numbers of axes, scalars included), and the call
+raises exactly when the parameters cannot be broadcast against each other. -/
+theorem C19.vectorised_shape_documented (ms ds : List (List Nat)) (ndim : Nat) (hm : ms ≠ []) (hd : ds ≠ []) :
+    evalShape ms ds ndim = docShape ms ds ndim := by
+  simp only [evalShape, surfShape, docShape, bcastAll_atLeast1 hm, bcastAll_atLeast1 hd]
+  cases hM : bcastAll ms with
+  | none => simp [norm1]
+  | some m =>
+    cases hD : bcastAll ds with
+    | none => cases m <;> simp [norm1]
+    | some d =>
+      by_cases h1 : m = [] <;> by_cases h2 : d = []
+      · subst h1; subst h2; simp [norm1, bcast_nil_left]; rfl
+      · subst h1
+        simp [norm1, bcast_one_left h2, bcast_nil_left, h2]
+      · subst h2
+        simp [norm1, bcast_one_right h1, bcast_nil_right, h1]
+      · have e1 : norm1 (some m) = some m := by cases m <;> simp_all [norm1]
+        have e2 : norm1 (some d) = some d := by cases d <;> simp_all [norm1]
+        simp only [e1, e2]
+        cases bcast m d <;> simp [h1]
 
-/-- One-dimensional stacks of `n` parameter pairs give shape `(n, ndim)`; an `(n,1)` stack
-of angles against a `(1,m)` stack of detector parameters gives the outer-product shape
-`(n, m, ndim)` — equal to the documented `broadcast(mparam, dparam).shape + (ndim,)`. -/
-theorem C19.vectorised_shape_arrays (n m ndim : Nat) :
-    evalShape [[n]] [[n]] ndim false = some [n, ndim] ∧
-    evalShape [[n, 1]] [[1, m]] ndim false = some [n, m, ndim] ∧
-    docShape [[n, 1]] [[1, m]] ndim = some [n, m, ndim] ∧
-    evalShape [[n]] [[n], [n]] ndim true = some [n, ndim] := by
-  by_cases hn : n = 1 <;> by_cases hm : m = 1 <;>
-    simp [evalShape, docShape, surfShape, bcastAll, bcast, bcastRev, bcastDim, atLeast1, hn, hm]
-  all_goals grind
 
-/-- The code's shape logic deviates from the documented broadcasting in two ways (findings
-F19e, F19d): parameters with different numbers of array axes are rejected, and the curved
-two-parameter detectors reject detector parameters whose components have different shapes.
+/-- Single parameters (all components scalar) give a single vector of shape `(ndim,)`;
+stacks of `n` pairs give `(n, ndim)`; `(n,1)` angles against `(1,m)` detector parameters
+give the outer-product shape `(n, m, ndim)`; parameters with different numbers of axes
+broadcast like NumPy arrays. -/
+theorem C19.vectorised_shape_examples (n m ndim : Nat) :
+    evalShape [[]] [[], []] ndim = some [ndim] ∧
+    evalShape [[], [], []] [[], []] ndim = some [ndim] ∧
+    evalShape [[n]] [[n]] ndim = some [n, ndim] ∧
+    evalShape [[n, 1]] [[1, m]] ndim = some [n, m, ndim] ∧
+    evalShape [[2, 3]] [[]] ndim = some [2, 3, ndim] ∧
+    evalShape [[]] [[3, 1]] ndim = some [3, 1, ndim] ∧
+    evalShape [[3]] [[], [3]] ndim = some [3, ndim] ∧
+    evalShape [[3]] [[1, 4]] ndim = none := by
+  refine ⟨by simp [evalShape, surfShape, bcastAll, bcast, bcastRev, bcastDim, atLeast1],
+    by simp [evalShape, surfShape, bcastAll, bcast, bcastRev, bcastDim, atLeast1], ?_, ?_,
+    by simp [evalShape, surfShape, bcastAll, bcast, bcastRev, bcastDim, atLeast1],
+    by simp [evalShape, surfShape, bcastAll, bcast, bcastRev, bcastDim, atLeast1],
+    by simp [evalShape, surfShape, bcastAll, bcast, bcastRev, bcastDim, atLeast1],
+    by simp [evalShape, surfShape, bcastAll, bcast, bcastRev, bcastDim, atLeast1]⟩
+  · rw [C19.vectorised_shape_documented _ _ _ (by simp) (by simp)]
+    simp [docShape, bcastAll, bcast, bcastRev, bcastDim]
+  · rw [C19.vectorised_shape_documented _ _ _ (by simp) (by simp)]
+    simp [docShape, bcastAll, bcast, bcastRev, bcastDim_one_left, bcastDim_one_right]
 
-  full statement (FALSE for the code as it is):
-    ∀ m d ndim curved sh, docShape m d ndim = some sh → evalShape m d ndim curved = some sh -/
-theorem C19.vectorised_shape_fails :
-    (evalShape [[2, 3]] [[]] 2 false = none ∧ docShape [[2, 3]] [[]] 2 = some [2, 3, 2]) ∧
-    (evalShape [[]] [[3, 1]] 2 false = none ∧ docShape [[]] [[3, 1]] 2 = some [3, 1, 2]) ∧
-    (evalShape [[3]] [[], [3]] 3 true = none ∧ docShape [[3]] [[], [3]] 3 = some [3, 3]) ∧
-    (evalShape [[3]] [[], [3]] 3 false = some [3, 3]) := by
+/-- Sensitivity (the code before repairs 5a47c74 / 5bdaf92, findings F19d / F19e): the OLD
+shape logic rejected parameters with different numbers of array axes, and the curved
+two-parameter detectors rejected detector parameters whose components have different
+shapes, although the documented shape exists. -/
+theorem C19.vectorised_shape_old_fails :
+    (evalShapeOld [[2, 3]] [[]] 2 false = none ∧ docShape [[2, 3]] [[]] 2 = some [2, 3, 2]) ∧
+    (evalShapeOld [[]] [[3, 1]] 2 false = none ∧ docShape [[]] [[3, 1]] 2 = some [3, 1, 2]) ∧
+    (evalShapeOld [[3]] [[], [3]] 3 true = none ∧ docShape [[3]] [[], [3]] 3 = some [3, 3]) := by
   decide
